@@ -287,6 +287,20 @@ static void c17() {
     }
   }
   // TimePeriod increment helpers from every byte value
+  static const int kSigns[] = {1, -1, 0, 127, -128, 2, -2};
+  for (unsigned v = 0; v < 256; v++) for (int sg : kSigns) for (unsigned sec : {0u, 30u, 59u}) for (unsigned other = 0; other < 60; other += (sg == 1 || sg == -1) ? 1 : 13) {
+    // one helper at a time, the other fields at arbitrary legal values and either sign: only the field named moves
+    TimePeriod ph((uint8_t) v, (uint8_t) other, (uint8_t) sec, (int8_t) sg);
+    time_period_mutation::incrementHour(ph);
+    TimePeriod pm((uint8_t) (other % 24), (uint8_t) v, (uint8_t) sec, (int8_t) sg);
+    time_period_mutation::incrementMinute(pm);
+    CNT.add("c17.increment_cases", 2);
+    if (sg < 0) CNT.add("c17.increment_cases_on_negative_periods", 2);
+    bool bad = ph.hour() > 23 || pm.minute() > 59 || (v < 24 && ph.hour() != (v + 1) % 24) || (v < 60 && pm.minute() != (v + 1) % 60)
+        || ph.minute() != other || ph.second() != sec || ph.sign() != (int8_t) sg || pm.hour() != other % 24 || pm.second() != sec || pm.sign() != (int8_t) sg;
+    if (bad) { J j; j.num("from", v).num("sign", sg).num("other_field", other).num("second", sec).num("hour_after_incrementHour", ph.hour()).num("minute_after_incrementMinute", pm.minute());
+      witness("c17:period-increment-with-sign-or-other-fields", "TimePeriod incrementHour/incrementMinute leaves its interval, is not the cyclic successor, or moves another field (period of either sign, other fields set)", j); }
+  }
   for (unsigned v = 0; v < 256; v++) {
     TimePeriod p((uint8_t) v, (uint8_t) v, 0);
     time_period_mutation::incrementHour(p);
